@@ -293,6 +293,8 @@ class Writer(object):
             for mono, c in v.t.items():
                 tot += c * (n ** sum(pw for a_, pw in mono))
             return tot
+        if isinstance(e, ast.Name) and e.id in getattr(self, 'listdefs', {}):
+            return self._list_count_at(self.listdefs[e.id], n)
         if isinstance(e, ast.List):
             return len(e.elts)
         if isinstance(e, ast.BinOp) and isinstance(e.op, ast.Add):
@@ -308,6 +310,8 @@ class Writer(object):
 
     def _list_count(self, e):
         """number of elements of a list expression built with + and * from list literals"""
+        if isinstance(e, ast.Name) and e.id in getattr(self, 'listdefs', {}):
+            return self._list_count(self.listdefs[e.id])
         if isinstance(e, ast.List):
             return Poly.const(len(e.elts))
         if isinstance(e, ast.Subscript) and isinstance(e.slice, ast.Slice) and e.slice.lower is None and e.slice.step is None and e.slice.upper is not None:
